@@ -11,6 +11,9 @@ CHECKS = {
  'C01': dict(level='exploration', design='3/C01', technique='differential runtime monitor: real verifier (ASan/UBSan) vs independent reference evaluator of INT-01..17 over reference-built signatures and semantic mutants',
    text='A reference aggregator/calendar builds honest signatures with random tree shapes; ~35 single-point semantic mutators and second-order mutants are applied; each case is parsed by the reference parser, judged by an independent evaluator of the consistency conditions, and compared with KSI_SignatureVerifier_verify(INTERNAL) and KSI_Signature_parse on the real library. Held = verdict classes agreed on every explored case and no sanitizer report; the run is inconclusive unless every code INT-01..15,17 was produced by a single-violation case.',
    note='Trusts vlib/refksi.py (calibrated against the bundled cross-SDK conformance pack, tools/calibrate.py), hashlib, the sanitizer runtimes. INT-16 cannot be provoked (no algorithm has an obsolescence date).'),
+ 'C02': dict(level='exploration', design='3/C02', technique='runtime monitor over all verifying entry points: observed verdict vs reference rule (GEN-01/03/04, refusal above 255) on generated signatures x hash/level variants',
+   text='Honest reference-built signatures are verified through KSI_SignatureVerifier_verify, KSI_Signature_verifyWithPolicy (with and without caller context), KSI_verifyDataHash and KSI_Signature_verifyDocument under the six verifying policies with document hashes that are equal / differ in one bit (all bits for a subset) / carry another algorithm id, and levels around the first-link correction and the 255/2^32/2^64 boundaries; the verdict must be the documented GEN code, a refusal, or exactly the verdict obtained without a document.',
+   note='Trusts vlib/gen.py and refksi; trust anchors for key/calendar/publications-file policies are not supplied here, so their matching-document baseline is NA (C04 covers anchors).'),
 }
 NOT_YET = 'check not built yet in this session (planned in DESIGN.md section 3)'
 
